@@ -325,10 +325,10 @@ func c13Codec(p *Prog, r *Report, cl *types.Named, recv *ssa.Function) {
 			}
 			st := acc.Instr.(*ssa.Store)
 			var bad []string
-			if acc.Fn != recv {
-				bad = append(bad, "written outside the frame handler")
+			if !onlyCalledFrom(p, acc.Fn, recv, 3) {
+				bad = append(bad, "written outside the frame handler (and its private helpers)")
 			}
-			if len(acc.Fn.Params) == 0 || acc.Base != acc.Fn.Params[0] {
+			if len(acc.Fn.Params) == 0 || acc.Base != acc.Fn.Params[0] || recvNamed(acc.Fn) != cl {
 				bad = append(bad, "written on an object other than the receiving connection")
 			}
 			// guarded by a successful table lookup
@@ -359,15 +359,15 @@ func c13Codec(p *Prog, r *Report, cl *types.Named, recv *ssa.Function) {
 						bad = append(bad, "stored codec is not the looked-up codec")
 					}
 				}
-				// inside the STARTUP arm
-				inStartup := false
-				for _, ct := range dominatingConds(st.Block()) {
+				// inside the STARTUP arm (possibly of the caller, when the arm's body is a helper)
+				inStartup := guardHolds(p, st.Block(), func(ct condTruth) bool {
 					if ex, ok := ct.Cond.(*ssa.Extract); ok && ct.Truth {
 						if ta, ok := ex.Tuple.(*ssa.TypeAssert); ok && typeIs(ta.AssertedType, "message", "Startup") {
-							inStartup = true
+							return true
 						}
 					}
-				}
+					return false
+				}, 3)
 				if !inStartup {
 					bad = append(bad, "not inside the STARTUP arm")
 				}
